@@ -25,6 +25,7 @@ type TOOpts struct {
 	Update   bool // the order is an update on top of a completed model
 	Cancel   bool
 	Migrate  bool // after full storage a provider may start a migration
+	Term     bool // the owner may terminate the model at any time after the first completion
 	Depth    int
 	Props    map[string]bool
 }
@@ -79,6 +80,9 @@ func TimeoutScenario(o TOOpts) *engine.Scenario {
 					full = false
 				}
 			}
+			if o.Term && ord.Status == ordertypes.OrderCompleted {
+				out = append(out, Tx("terminate", "terminate("+ord.DataId[:2]+")", TerminateMsg(w, world.O, world.G, world.G, ord.DataId)))
+			}
 			if o.Migrate && full && ord.Status == ordertypes.OrderCompleted {
 				for _, sid := range ord.Shards {
 					if sh, ok := a.OrderKeeper.GetShard(ctx, sid); ok && sh.Status == ordertypes.ShardCompleted {
@@ -106,7 +110,7 @@ func TimeoutScenario(o TOOpts) *engine.Scenario {
 }
 
 func toName(o TOOpts) string {
-	return fmt.Sprintf("to-n%d-r%d-t%d-d%d%s%s%s%s", o.NSP, o.Replica, o.Timeout, o.Duration, cmpb(o.Spare, "-spare", ""), cmpb(o.Update, "-upd", ""), cmpb(o.Cancel, "-cancel", ""), cmpb(o.Migrate, "-mig", ""))
+	return fmt.Sprintf("to-n%d-r%d-t%d-d%d%s%s%s%s%s", o.NSP, o.Replica, o.Timeout, o.Duration, cmpb(o.Spare, "-spare", ""), cmpb(o.Update, "-upd", ""), cmpb(o.Cancel, "-cancel", ""), cmpb(o.Migrate, "-mig", ""), cmpb(o.Term, "-term", ""))
 }
 
 // TimeoutFamily returns the fault-sequence scenarios of a tier.
@@ -119,7 +123,7 @@ func TimeoutFamily(id, tier string, p map[string]bool) []*engine.Scenario {
 	}
 	// quick: the combinations that reach re-assignment, give-up (cancel and replica reduction) and the guard
 	add(TOOpts{NSP: 2, Replica: 1, Timeout: 10, Duration: 3600, Depth: 17})
-	add(TOOpts{NSP: 3, Replica: 2, Timeout: 10, Duration: 3600, Depth: 17})
+	add(TOOpts{NSP: 3, Replica: 2, Timeout: 10, Duration: 3600, Term: true, Depth: 17})
 	add(TOOpts{NSP: 2, Replica: 2, Timeout: 10, Duration: 3600, Spare: true, Depth: 17})
 	add(TOOpts{NSP: 2, Replica: 1, Timeout: 10, Duration: 3600, Update: true, Cancel: true, Depth: 16})
 	add(TOOpts{NSP: 2, Replica: 1, Timeout: 1800, Duration: 3600, Depth: 5})
